@@ -69,12 +69,18 @@ fn gen_rank_world(src: &mut Source, force_distinct: bool, fit_cap: bool) -> Rank
             w
         }).collect()
     };
-    let nrec = match src.weighted(&[10, 8, 4, 1]) {
-        0 => src.range(1, 8),
-        1 => src.range(9, 30),
-        2 => src.range(31, 60),
-        // now and then a store beyond 100 candidates (limits above the default then matter)
-        _ => src.range(101, 260),
+    let huge = fit_cap && force_distinct && src.chance(1, 250);
+    let nrec = if huge {
+        // beyond a thousand hits, limits in the hundreds (C07 only: C06 searches every record alone)
+        src.range(1030, 1300)
+    } else {
+        match src.weighted(&[10, 8, 4, 1]) {
+            0 => src.range(1, 8),
+            1 => src.range(9, 30),
+            2 => src.range(31, 60),
+            // now and then a store beyond 100 candidates (limits above the default then matter)
+            _ => src.range(101, 260),
+        }
     };
     let distinct = force_distinct || src.chance(1, 2);
     let ratings: Vec<usize> = if distinct { gen_distinct_ratings(src, nrec) } else { (0..nrec).map(|_| src.below(4)).collect() };
@@ -85,7 +91,7 @@ fn gen_rank_world(src: &mut Source, force_distinct: bool, fit_cap: bool) -> Rank
             (k + 1, t, ratings[k])
         })
         .collect();
-    let mut limit = if nrec > 100 { src.range(11, 40) } else { src.below(nrec + 3) };
+    let mut limit = if nrec > 1000 { src.range(110, 700) } else if nrec > 100 { src.range(11, 40) } else { src.below(nrec + 3) };
     if fit_cap {
         // |store| <= 10 * limit
         limit = limit.max((nrec + 9) / 10).max(1);
@@ -395,6 +401,7 @@ impl Case for C07Case {
             ctx.label_if({ let mut ids: Vec<usize> = w.recs.iter().map(|r| r.0).collect(); ids.sort(); ids.dedup(); ids.len() < w.recs.len() }, "duplicate-ids");
             ctx.label_if(n > 100, "store>100");
             ctx.label_if(n == 10 * w.limit, "store==10x-limit");
+            ctx.label_if(n > 1000, "store>1000");
             if hits.len() >= 3 && !identity {
                 ctx.nontrivial();
             }
@@ -460,10 +467,12 @@ pub fn decode_c12(src: &mut Source) -> Box<dyn Case> {
     let plain = plain_letters(lang);
     let nv = src.range(2, 4);
     let vocab: Vec<String> = (0..nv).map(|_| (0..src.range(1, 3)).map(|_| plain[src.below(4)]).collect()).collect();
-    let nrec = match src.weighted(&[1, 6, 3]) {
+    let nrec = match src.weighted(&[60, 360, 180, 1]) {
         0 => 0,
         1 => src.range(1, 12),
-        _ => src.range(13, 40),
+        2 => src.range(13, 40),
+        // now and then a catalogue beyond a thousand records with a limit in the hundreds
+        _ => src.range(1024, 1400),
     };
     let distinct = src.chance(1, 2);
     let total = nrec + 6;
@@ -481,7 +490,7 @@ pub fn decode_c12(src: &mut Source) -> Box<dyn Case> {
         (k + 1, words.join(*src.pick(&[" ", " ", "-", "  "])), ratings[k])
     };
     let recs: Vec<Rec> = (0..nrec).map(|k| mk(src, k)).collect();
-    let limit = src.below(nrec + 3);
+    let limit = if nrec >= 1024 { src.range(500, nrec + 2) } else { src.below(nrec + 3) };
     let query = src.pick(&["", " ", "-", "' ", "\0", "+ -", "\u{301}", "  ", ".", "()", "¿", "«»", "€", "•", "“ ”", "°", "¡!", "\u{a0}", "…", "§"]).to_string();
     // history: in half of the cases 1-5 further steps (adds, limit changes, searches in any order)
     let mut steps: Vec<Step> = Vec::new();
@@ -497,7 +506,7 @@ pub fn decode_c12(src: &mut Source) -> Box<dyn Case> {
                         // (distinct ratings stay distinct: each reload draws from its own thousand)
                         let reloads = steps.iter().filter(|x| matches!(x, Step::Reload(_))).count();
                         let newr: Vec<usize> = if distinct { gen_distinct_ratings(src, n_now).into_iter().map(|r| r + 100_000 * (reloads + 1)).collect() } else { (0..n_now).map(|_| src.below(3)).collect() };
-                        let fresh: Vec<Rec> = (0..n_now).map(|i| { let mut r = mk(src, i % total); r.0 = 1000 + i + 1; r.2 = newr[i]; r }).collect();
+                        let fresh: Vec<Rec> = (0..n_now).map(|i| { let mut r = mk(src, i % total); r.0 = 100_000 * (reloads + 1) + i + 1; r.2 = newr[i]; r }).collect();
                         steps.push(Step::Reload(fresh));
                     }
                 }
@@ -532,18 +541,18 @@ impl C12Case {
         if hits.len() != limit.min(n) {
             return ctx.fail("count", "", info(format!("expected {} hits", limit.min(n))));
         }
-        let rat = |id: usize| recs.iter().find(|r| r.0 == id).map(|r| r.2);
-        let toks = |id: usize| recs.iter().find(|r| r.0 == id).map(|r| tokenize_record(&r.1, &l).chars);
-        let mut seen = Vec::new();
+        // indexes by id (stores of a thousand records: no quadratic look-ups)
+        let by_id: std::collections::HashMap<usize, &Rec> = recs.iter().map(|r| (r.0, r)).collect();
+        let rat = |id: usize| by_id.get(&id).map(|r| r.2);
+        let mut seen = std::collections::HashSet::new();
         for h in hits {
-            let r = match recs.iter().find(|r| r.0 == h.0) {
-                Some(r) => r,
+            let r = match by_id.get(&h.0) {
+                Some(r) => *r,
                 None => return ctx.fail("unknown-id", "", info(format!("id {}", h.0))),
             };
-            if seen.contains(&h.0) {
+            if !seen.insert(h.0) {
                 return ctx.fail("record-twice", "", info(format!("id {}", h.0)));
             }
-            seen.push(h.0);
             let cs: Vec<char> = r.1.chars().collect();
             let plain: String = compose_model(table, &cs).into_iter().filter(|&c| c != '\0').collect();
             if h.1 != plain {
@@ -553,16 +562,21 @@ impl C12Case {
         if hits.windows(2).any(|w| rat(w[0].0) < rat(w[1].0)) {
             return ctx.fail("rating-increases", "", info(String::new()));
         }
-        for o in recs.iter().filter(|r| !hits.iter().any(|h| h.0 == r.0)) {
-            for h in hits {
-                let hr = rat(h.0).unwrap();
-                if o.2 > hr {
-                    return ctx.fail("omitted-higher-rating", "", info(format!("omitted {:?} listed id {}", o, h.0)));
+        // "no omitted record beats a listed one": it is enough to compare every omitted record with
+        // the worst listed one (lowest rating, and among those the latest normalised title)
+        if !hits.is_empty() {
+            let worst_rating = hits.iter().map(|h| rat(h.0).unwrap()).min().unwrap();
+            let worst_chars: Vec<char> = hits.iter().filter(|h| rat(h.0).unwrap() == worst_rating).map(|h| tokenize_record(&by_id[&h.0].1, &l).chars).max().unwrap();
+            for o in recs.iter().filter(|r| !seen.contains(&r.0)) {
+                if o.2 > worst_rating {
+                    return ctx.fail("omitted-higher-rating", "", info(format!("omitted {:?} while a record rated {} is listed", o, worst_rating)));
                 }
-                if o.2 == hr && toks(o.0).unwrap() < toks(h.0).unwrap() {
-                    return ctx.fail("omitted-earlier-title", "", info(format!("omitted {:?} sorts before listed id {} at equal rating", o, h.0)));
+                if o.2 == worst_rating && tokenize_record(&o.1, &l).chars < worst_chars {
+                    return ctx.fail("omitted-earlier-title", "", info(format!("omitted {:?} sorts before a listed record of equal rating ({:?})", o, worst_chars.iter().collect::<String>())));
                 }
             }
+        } else if limit > 0 && n > 0 {
+            return ctx.fail("count", "", info("no hits".into()));
         }
         if self.distinct {
             let mut exp: Vec<&Rec> = recs.iter().collect();
@@ -575,7 +589,7 @@ impl C12Case {
         // a tie straddling the cut?
         if n > limit && limit > 0 {
             let last = rat(hits[hits.len() - 1].0).unwrap();
-            if recs.iter().any(|r| !hits.iter().any(|h| h.0 == r.0) && r.2 == last) {
+            if recs.iter().any(|r| !seen.contains(&r.0) && r.2 == last) {
                 ctx.label("tie-straddles-cut");
                 ctx.nontrivial();
             }
@@ -642,6 +656,7 @@ impl Case for C12Case {
             ctx.nontrivial();
         }
         ctx.label_if(self.recs.is_empty(), "empty-store");
+        ctx.label_if(self.recs.len() >= 1024, "store>=1024");
         ctx.label_if(self.steps.iter().any(|x| matches!(x, Step::Limit(_))) && !self.steps.iter().any(|x| matches!(x, Step::Add(_))), "limit-change-only");
         ctx.label_if(self.recs.iter().any(|r| !r.1.chars().any(|c| c.is_alphanumeric())), "wordless-title");
         ctx.label_if(self.limit == 0, "limit-0");
